@@ -569,6 +569,9 @@ def check_config_model(ctx, cfgs, bins):
             continue
         vec = dict(kv.split("=") for kv in m.split(" "))
         ncoll = collections(recs[1])
+        if recs[1].result[0] != "ok" or recs[1].output != ["50"]:
+            ctx.corr_broken.append("the probe program does not run in build %s: %s %s" % (cfg_name(p, f), recs[1].result, recs[1].output[:3]))
+            continue
         rows.append({"build": cfg_name(p, f), "model": m, "probe_collections": ncoll})
         if (vec.get("gc_always") == "T") != (ncoll > 0):
             ctx.corr_broken.append("gc fork of %s: model says gc_always=%s, the probe program saw %d collections" % (
